@@ -173,6 +173,8 @@ def run_shard(shard, tier):
                 ok = st == "ok"
                 acc.outcomes[("accept-" if ok else "reject-") + OPNAME[op]] += 1
                 _judge(acc, sp, op, args, oi, opts, vx, x, ok, y, st)
+                if oi == 0 and st in ("ok", "exc"):
+                    _assign(acc, sp, op, args, opts, vx, x, ok, y)
                 if acc.states % 3001 == 0:
                     acc.sample(dict(type=S.type_expr(sp), options=opts, input=vx,
                                     outcome=("value " + short(y, 60)) if ok else "ParseError"))
@@ -260,6 +262,32 @@ def _judge(acc, sp, op, args, oi, opts, vx, x, ok, y, st):
 
 
 OPNAME = {"|": "or", "^": "xor", "&": "and", "~": "not"}
+ASSIGN_FORMS = ["setattr", "setitem", "dsetattr"]
+
+
+def _assign(acc, sp, op, args, opts, vx, x, ok, y):
+    """the same combined type as the type of a field that is assigned to (attribute, item, DataClass attribute): the
+    assignment runs in a context that raises at once, and must give the verdict and the value of the plain conversion"""
+    for form in ASSIGN_FORMS:
+        try:
+            fn, _, _ = e1.caller(sp, form, opts)
+        except Exception:       # noqa
+            acc.extra["assignment_forms_rejected_at_build"] += 1
+            continue
+        st2, y2 = call_guarded(lambda: fn(ev(vx)), wall_s=1.0, step_budget=400_000)
+        acc.transitions += 1
+        ok2 = st2 == "ok"
+        if ok2 == ok and (not ok or canon(y2) == canon(y)):
+            continue
+        fp = f"C09|{OPNAME[op]}|{_argkinds(args)}|assign-{form}-{'verdict' if ok2 != ok else 'value'}|{e1.value_shape(x)}|default"
+        acc.violation(fp, f"{S.type_expr(sp)} input={vx}: converting gives {'a value' if ok else 'a rejection'} "
+                          f"({short(y, 50)}) but assigning to a field of that type ({form}) gives "
+                          f"{'a value' if ok2 else 'a rejection'} ({short(y2, 50)})",
+                      "\n".join(["import sys", "sys.path.insert(0, '/verif')", "from utmc.ns import *", "from utmc.props import c09",
+                                 "from utmc.canon import canon", f"sp = {sp!r}", "fa, _, _ = c09.e1.caller(sp, 'tt', {})",
+                                 f"fb, _, _ = c09.e1.caller(sp, {form!r}, {{}})",
+                                 "def r(f):", f"    try: return ('ok', canon(f({vx})))", "    except exc.ParseError as e: return ('rejected',)",
+                                 "print(r(fa), r(fb)); sys.exit(0 if r(fa) == r(fb) else 1)"]) + "\n")
 
 
 def _conforms(a, y):
@@ -389,6 +417,8 @@ def _algebra(acc, tier, part):
         for op, fn in (("|", "any_of"), ("^", "one_of"), ("&", "all_of")):
             same_behaviour(f"flatten-left-{OPNAME[op]}", f"({a} {op} {b}) {op} {c}", f"{fn}({a}, {b}, {c})")
             same_behaviour(f"flatten-right-{OPNAME[op]}", f"{a} {op} ({b} {op} {c})", f"{fn}({a}, {b}, {c})")
+            # a combined type that was used as an operand of the same operator is still what it was
+            same_behaviour(f"operand-unchanged-{OPNAME[op]}", f"AFTER_USE({a} {op} {b}, {op!r}, {c})", f"{a} {op} {b}")
     # data classes as operands (LogicalMeta)
     dc = "SC('P', Schema, None, a=(int,))"
     env_setup = f"P = {dc}"
